@@ -21,6 +21,7 @@ struct Issued {
 
 struct Client {
     sslKeys_t *keys = nullptr; sslSessionId_t *sid = nullptr;
+    bool dirty = false;   // the stored state was edited / forged / comes from the foreign server / is presented under other parameters: a refusal or failure is then legitimate
     int ver = 1; uint16_t suite = 0; int ems = 0; bool tickets = false; bool multi = false;   // multi: offer the whole suite family, not just one suite
 };
 
@@ -68,7 +69,7 @@ static Plan c14_gen(uint64_t seed, int tier, uint64_t index) {
     Plan p;
     p.cfg["kind"] = r.chance(1, 2) ? KK_RSA2048 : KK_EC256;
     int n = 3 + (int) r.below(tier ? 30 : 12);
-    static const int64_t ADV[] = { 1000, 60000, 359000, 361000, 3600000, 86399000, 86401000, 2LL * 86400000, 25LL * 86400000, 26LL * 86400000, 49LL * 86400000, 50LL * 86400000, 60LL * 86400000 };
+    static const int64_t ADV[] = { 1000, 60000, 200000, 359000, 361000, 3600000, 43200000, 64800000, 86399000, 86401000, 2LL * 86400000, 25LL * 86400000, 26LL * 86400000, 49LL * 86400000, 50LL * 86400000, 60LL * 86400000 };
     for (int i = 0; i < n; i++) {
         int c = (int) r.below(NCLIENTS);
         switch (r.below(16)) {
@@ -125,6 +126,17 @@ static std::vector<Plan> c14_fixed(int tier) {
                             p.ops.push_back(Op("resume", 0, 0));
                             v.push_back(p);
                         }
+                    }
+                }
+                {   // sliding-window check: the identifier is used (resumed) within its lifetime, then presented again after its lifetime, counted from issue, has passed
+                    static const int64_t AB[][2] = { { 64800000, 43200000 }, { 43200000, 64800000 }, { 82800000, 7200000 }, { 200000, 200000 }, { 86000000, 86000000 } };
+                    for (int k = 0; k < 5; k++) {
+                        Plan p; p.seed = 154000 + (uint64_t) ((((kind * 3 + ver) * 2 + tk) * 8) + k);
+                        p.cfg["kind"] = kind ? KK_EC256 : KK_RSA2048;
+                        p.ops.push_back(Op("full", 0, ver, 7, tk)); p.ops.push_back(Op("advance", AB[k][0])); p.ops.push_back(Op("resume", 0, 0));
+                        p.ops.push_back(Op("advance", AB[k][1])); p.ops.push_back(Op("resume", 0, 0));
+                        if (k == 4) { p.ops.push_back(Op("advance", AB[k][1])); p.ops.push_back(Op("resume", 0, 0)); }
+                        v.push_back(p);
                     }
                 }
                 {   // fatal alert on the session, then resume
@@ -206,6 +218,7 @@ void Hist::connect(int c, int server, const Op &op) {
     std::string mode = op.k;
     if (mode == "full" || mode == "foreign") {
         vsim_set_node(NODE_HARNESS); matrixSslClearSessionId(C.sid);
+        C.dirty = mode == "foreign";
         if (mode == "full") {
             Rng r((uint64_t) op.c + 77);
             C.ver = (int) (op.b % 3); C.suite = pick_suite(r, C.ver, server_kind); C.tickets = (op.d & 1) != 0; C.ems = (op.d & 2) && C.ver != 2 ? -1 : 0; C.multi = (op.d & 4) != 0;
@@ -213,6 +226,7 @@ void Hist::connect(int c, int server, const Op &op) {
     } else if (mode == "resume" || mode == "fatal" || mode == "dirty" || mode == "hold") {
         // optionally present the stored state under other parameters
         Rng r(derive(plan.seed, "reparam", (uint64_t) op.b * 31 + (uint64_t) c));
+        if (op.b != 0 && mode == "resume") { C.dirty = true; }
         if (op.b == 1 && mode == "resume") { C.suite = pick_suite(r, C.ver, server_kind); }
         else if (op.b == 2 && mode == "resume") { C.ver = (C.ver + 1 + (int) r.below(2)) % 3; C.suite = pick_suite(r, C.ver, server_kind); }
         else if (op.b == 3 && mode == "resume" && C.ver != 2) { C.ems = C.ems ? 0 : -1; }
@@ -242,7 +256,10 @@ void Hist::connect(int c, int server, const Op &op) {
     if (ok) { vsim_peek_master_secret_digest((const struct ssl *) w.srv->ssl, &ms_s); vsim_peek_master_secret_digest((const struct ssl *) w.cli->ssl, &ms_c); }
     int ems = ok ? vsim_peek_ems((const struct ssl *) w.srv->ssl) : 0;
     counters[std::string("conn.") + mode + (ok ? (resumed_s ? ".resumed" : ".full") : ".failed")]++;
-    fp.add((uint64_t) ok); fp.add((uint64_t) resumed_s); fp.add(nver); fp.add(nsuite);
+    // probe only (C14 allows "a full handshake or failure"): an undisturbed connection of a client presenting untouched state of this server failed
+    if (!ok && !C.dirty && server == 0 && !corrupt && (mode == "full" || mode == "resume" || mode == "hold")) {
+        counters[std::string("probe.untouched_state_handshake_failed.") + ver_name(V[C.ver])]++;
+    }
     std::string vname = ver_name(V[C.ver]);
     // ---------------- the oracle: a handshake that completed as resumed on the server
     if (resumed_s && server == 0) {
@@ -300,7 +317,7 @@ void Hist::connect(int c, int server, const Op &op) {
             Issued J = I; J.mech = "id"; J.invalidated = srv_alert;
             auto it = issued.find("id:" + after.id);
             if (it != issued.end() && it->second.invalidated) { J.invalidated = true; }   // once invalidated, stays so in the model
-            if (it != issued.end() && resumed_s) { J.time_s = it->second.time_s > 0 ? I.time_s : I.time_s; }
+            if (it != issued.end() && resumed_s) { J.time_s = it->second.time_s; }      // a resumption does not renew the lifetime of a cached session: it is counted from the handshake that created it
             issued["id:" + after.id] = J;
         }
         if (!after.ticket.empty() && after.ticket != before.ticket) { Issued J = I; J.mech = "ticket"; issued["ticket:" + after.ticket] = J; }
@@ -372,7 +389,7 @@ void Hist::forge_halfopen(int c, const Op &op) {
         }
     }
     counters[got ? ((op.d & 4) ? "fault.forged_session_of_unfinished_handshake" : "fault.forged_halfopen_session") : "fault_not_fired"]++;
-    last_edit = "forged_halfopen";
+    last_edit = "forged_halfopen"; C.dirty = true;
     w.filter = nullptr;
     held.push_back(std::move(wp)); held_tmp_sids.push_back(tmp);
 }
@@ -396,7 +413,7 @@ void Hist::edit(int c, const Op &op) {
     case 7: if (tLen > 40) { vsim_sid_set_ticket_len(sid, tLen - 1 - (int) ((uint64_t) op.c % 16)); what = "ticket_truncated"; } break;
     case 8: if (hasPsk) { int l; unsigned char *t = vsim_sid_psk_id(sid, &l); if (t && l > 0) { t[(uint64_t) op.c % (uint64_t) l] ^= x; what = "psk_id"; } } break;
     }
-    if (what == "none") { counters["fault_not_fired"]++; } else { counters["fault.edit_" + what]++; last_edit = what; }
+    if (what == "none") { counters["fault_not_fired"]++; } else { counters["fault.edit_" + what]++; last_edit = what; C.dirty = true; }
 }
 
 void Hist::run() {
@@ -475,6 +492,6 @@ static ModuleRegistrar reg({ "C14", "hist", "exploration",
     c14_gen, c14_exec, 2500, 60000, 75, 1200,
     { "core (incl. osdep.c: psGetTime/psDiffMsecs on the simulated clock)", "crypto", "matrixssl (session cache, tickets, TLS 1.3 PSK resumption, client session-id objects)" },
     { "transport", "applications", "clock", "entropy", "allocator front-end" },
-    { "expiry is measured from the last time the model saw the identifier issued or refreshed (weaker than 'since creation', so a library that refreshes on resumption is not flagged)",
+    { "expiry of a cached session id is measured from the handshake that created it (a resumption does not renew it); tickets / TLS 1.3 PSKs from when that ticket was issued",
       "the model does not predict eviction: a declined resumption is never a violation" },
     "asan", c14_fixed, false });
